@@ -9,7 +9,7 @@
    the LHS write) in full; and two refutations, each replayed on the implementation by the check. *)
 From Coq Require Import List ZArith Bool.
 Import ListNotations.
-From PV Require Import Fort.Syntax Fort.Sem C11.Access C11.Proofs C11.Ext C11.Order.
+From PV Require Import Fort.Syntax Fort.Sem C11.Access C11.Proofs C11.Ext C11.Order C11.Struct.
 
 (* core MiniFortran (assignments, IF, DO, EXIT/CYCLE/RETURN, regions, directives), all stores, all fuels *)
 Theorem C11_access_covers_reads_partial : forall fuel ss st st' tr c,
@@ -135,3 +135,43 @@ Example C11_xcovers_nonvacuous :
   end.
 Proof. exact xcovers_nonvacuous. Qed.
 Print Assumptions C11_xcovers_nonvacuous.
+
+(* structure (derived-type) accesses grid(ii)%cells(jj)%vals(j) as RHS leaves, assignment targets, call arguments and
+   IF/WHILE conditions; [enc] maps a signature (component names) to a variable name and is arbitrary.  Partial only in
+   the sense of `ssafe` (pure call with an intent(out) dummy, PRINT in a body) *)
+Theorem C11_struct_covers_partial : forall enc fuel outs x loc s s' tr c,
+  ssafe x = true -> sstep enc fuel outs x s = Ok s' tr c -> bcovers tr (fst (sacc_stmt enc x loc)).
+Proof. exact sstep_covers_. Qed.
+Print Assumptions C11_struct_covers_partial.
+
+(* every subscript variable of every component is reported READ: as target, on the right-hand side, as call argument *)
+Theorem C11_sref_subscripts_reported : forall enc p e loc x,
+  In x (flat_map expr_reads (psubs p)) ->
+  is_read x (fst (sacc_stmt enc (SAsg (TRef p) e) loc)) = true /\
+  is_read x (fst (sacc_stmt enc (SAsg (TVar 0%nat []) (SRef p)) loc)) = true /\
+  (forall k its, is_read x (fst (sacc_stmt enc (SCallS k its [SRef p]) loc)) = true).
+Proof. exact sref_subscripts_reported_. Qed.
+Print Assumptions C11_sref_subscripts_reported.
+
+Example C11_struct_nonvacuous :
+  (match sstep (enc_tbl ex_tbl) 5 (fun _ => 0%Z) (SAsg (TVar 5%nat []) (SBin Add (SRef ex_gcv) (SCore (ELit 1)))) ex_sstore with
+   | Ok s' tr _ => reads tr = [(1%nat, []); (2%nat, []); (3%nat, []); (20%nat, [2; 3; 4]%Z)] /\ val s' (5%nat, []) = 8%Z
+   | _ => False end) /\
+  (match sstep (enc_tbl ex_tbl) 5 (fun _ => 0%Z) (SCallS (CUser false) [IInOut] [SRef ex_gcv]) ex_sstore with
+   | Ok _ tr _ => reads tr = [(1%nat, []); (2%nat, []); (3%nat, []); (20%nat, [2; 3; 4]%Z)] /\ writes tr = [(20%nat, [2; 3; 4]%Z)]
+   | _ => False end) /\
+  map (fun a => (a_sig a, a_kind a)) (fst (sacc_stmt (enc_tbl ex_tbl) (SCallS (CUser false) [IInOut] [SRef ex_gcv]) 0))
+    = [(20%nat, READWRITE); (1%nat, READ); (2%nat, READ); (3%nat, READ)] /\
+  map (fun a => (a_sig a, a_kind a)) (fst (sacc_stmt (enc_tbl ex_tbl) (SAsg (TRef ex_gcv) (SCore (EVar 1%nat))) 0))
+    = [(1%nat, READ); (1%nat, READ); (2%nat, READ); (3%nat, READ); (20%nat, WRITE)].
+Proof. exact struct_nonvacuous. Qed.
+Print Assumptions C11_struct_nonvacuous.
+
+(* regenerated obligation (props/C12/translate.py -> coq/C12/GenTables.v, shared with C09/C12/C13): every intrinsic of the
+   tree under test is known to the frozen table of the Fortran standard's inquiry functions, and none is flagged
+   `is_inquiry` (its first argument is then skipped by IntrinsicCall.reference_accesses = a missing READ, cf. expr_reads)
+   unless the standard classifies it as an inquiry function *)
+From PV Require Import C12.IntrTable C12.GenTables C12.IntrOblig.
+Theorem C11_inquiry_flags_sound : forallb flag_ok gen_intrinsics = true.
+Proof. exact inquiry_flags_sound. Qed.
+Print Assumptions C11_inquiry_flags_sound.
